@@ -5,7 +5,7 @@ from __future__ import annotations
 import itertools
 
 from ..e1 import Template
-from ..kernel import BOOL, INT, REAL
+from ..kernel import BOOL, INT, REAL, STR
 from .common import rotated
 
 S_I = [("t", {"a": INT, "b": INT, "p": BOOL, "q": BOOL})]
@@ -45,6 +45,8 @@ e("mod_neglc", S_I, lambda p, t: -7 % t.b, NL)
 e("divmod_identity", S_I, lambda p, t: (t.a // t.b) * t.b + t.a % t.b, NL)
 e("truediv_cc", S_I, lambda p, t: t.a / t.b, NL)
 e("truediv_cl", S_I, lambda p, t: t.a / 4)
+e("round_int_neg", S_I, lambda p, t: t.a.round(-1), NL)
+e("round_int_zero", S_I, lambda p, t: t.a.round(0))
 e("abs", S_I, lambda p, t: t.a.abs())
 e("abs_nested", S_I, lambda p, t: (t.a - t.b).abs() + 1)
 # comparison
@@ -138,6 +140,16 @@ e("f_clip", S_F, lambda p, t: t.f.clip(-1.5, 1.5))
 e("f_coalesce", S_F, lambda p, t: p.coalesce(t.f, t.g, 0.0))
 e("f_when", S_F, lambda p, t: p.when(t.f > 0).then(t.f).otherwise(t.g))
 e("f_div_lit", S_F, lambda p, t: t.f / 2)
+e("f_round_neg", S_F, lambda p, t: t.f.round(-1))
+S_S = [("t", {"s": STR, "r": STR, "a": INT})]
+e("s_clip", S_S, lambda p, t: t.s.clip("b", "d"))
+e("s_max", S_S, lambda p, t: p.max(t.s, t.r))
+e("s_min_lit", S_S, lambda p, t: p.min(t.s, "c"))
+e("s_lt", S_S, lambda p, t: t.s < t.r)
+e("s_ge_lit", S_S, lambda p, t: t.s >= "b")
+e("s_coalesce", S_S, lambda p, t: p.coalesce(t.s, t.r, "z"))
+e("s_is_in", S_S, lambda p, t: t.s.is_in("a", t.r, None))
+e("s_when", S_S, lambda p, t: p.when(t.s == t.r).then(t.s + "!").otherwise(t.r))
 
 
 def templates(cfg):
@@ -146,7 +158,7 @@ def templates(cfg):
     for nm in names:
         schema, fn, tags = E[nm]
         prog = lambda p, t, fn=fn: t >> p.mutate(y=fn(p, t))  # noqa: E731
-        out.append(Template(f"c03.{nm}", schema, prog, props=("C03",), tags=tags, nmax=2))
+        out.append(Template(f"c03.{nm}", schema, prog, props=("C03",), tags=tags, nmax=2, alphabet="abcd" if schema is S_S else None, int_bound=200 if nm.startswith(("round_int", "f_round_neg")) else None))
     # the same operators as predicates / inside filter and with literal operands in arrange
     for nm in ("floordiv_cc", "mod_cc", "bool_nested", "is_in_null", "hmax3", "when2", "or_cmp_null"):
         schema, fn, tags = E[nm]
